@@ -54,6 +54,8 @@ def rate_units(rng, single, two):
     if u >= 0.2:
         return single, two
     sc = float(10 ** rng.uniform(-16, -8)) if rng.random() < 0.75 else float(10 ** rng.uniform(6, 12))
+    if rng.random() < 0.25:  # the extremes of the double range (squares of such rates underflow / overflow)
+        sc = float(10 ** rng.uniform(-200, -155)) if rng.random() < 0.6 else float(10 ** rng.uniform(152, 200))
     if u < 0.12:
         return [[[r[0], r[1], r[2] * sc] for r in cell] for cell in single], [[[r[0], r[1], r[2], r[3], r[4] * sc] for r in bond] for bond in two]
     two = [list(b) for b in two]
